@@ -1,7 +1,9 @@
-(* Pinned statements of property C32 (deterministic progress core; the liveness statement itself is not a
-   theorem of this development). Nothing else lives here. *)
+(* Pinned statements of property C32: the deterministic progress core of replication, and recoverability of the
+   abstract system (no reachable state is a dead end). Liveness under real timers is not a theorem of this
+   development. Nothing else lives here. *)
 From Coq Require Import NArith List.
 From DE Require Import Val BufLog PLog Repl proofs.C19 proofs.C08 proofs.C07 proofs.C32.
+From DE Require AbstractRaft proofs.AR_live.
 Import ListNotations.
 Open Scope N_scope.
 
@@ -17,3 +19,14 @@ Proof.
   exact (proj2 (catchup_rounds b term commit cap F a0 HI Hw Hp Hc HwF HbF Hl Ha Hag)).
 Qed.
 Print Assumptions C32_catchup_rounds_partial.
+
+(* no reachable state of the abstract system is a dead end: whatever faults produced it (loss, duplication, delay,
+   re-ordering, competing elections, stale leaders), there is a finite continuation after which one node leads a
+   term above every earlier one, every node is in that term with the leader's log, and all of it is committed on
+   every node *)
+Theorem C32_recoverable :
+  forall nodes, nodes <> [] -> NoDup nodes -> forall s, AbstractRaft.reach nodes s ->
+  exists s' n, AR_live.star nodes s s' /\ AR_live.healed nodes s' n /\
+               (forall m, In m nodes -> AbstractRaft.a_cur s m < AbstractRaft.a_cur s' n).
+Proof. exact AR_live.recoverable. Qed.
+Print Assumptions C32_recoverable.
